@@ -25,14 +25,22 @@ def blob(key: bytes, plain: bytes, mac_name: str, iv: bytes) -> bytes:
 
 
 def pair_text(passphrase: str, data_key: bytes, *, cipher="AES-256", mac="HMAC-SHA-1", kdf="PBKDF2-HMAC-SHA-1", rounds=1000,
-              salt=b"\x01" * 16, iv=b"\x02" * 16, phrase_id="JTHVQF8/BHU=", data_cipher="AES-256", tamper=None, escape_inner=True):
+              salt=b"\x01" * 16, iv=b"\x02" * 16, phrase_id="JTHVQF8/BHU=", data_cipher="AES-256", tamper=None, escape_inner=True, order=None):
+    """order: a permutation of (0, 1, 2, 3) - the locator's fields (pass2key, cipher, rounds, salt) and the inner dictionary's fields are
+    key=value lists, their order carries no meaning."""
     wrap_key = hashlib.pbkdf2_hmac(KDFS[kdf], passphrase.encode(), salt, rounds, KEYLEN[cipher])
     e_in = esc if escape_inner else (lambda x: x)
-    inner = f"type=key:cipher={e_in(data_cipher)}:key={e_in(base64.b64encode(data_key).decode())}".encode()
+    ifields = ["type=key", f"cipher={e_in(data_cipher)}", f"key={e_in(base64.b64encode(data_key).decode())}"]
+    if order:
+        ifields = [ifields[k] for k in order if k < 3]
+    inner = ":".join(ifields).encode()
     b = bytearray(blob(wrap_key, inner, mac, iv))
     if tamper:
         tamper(b)
-    d = f"pass2key={esc(kdf)}:cipher={esc(cipher)}:rounds={rounds}:salt={esc(base64.b64encode(salt).decode())}"
+    fields = [f"pass2key={esc(kdf)}", f"cipher={esc(cipher)}", f"rounds={rounds}", f"salt={esc(base64.b64encode(salt).decode())}"]
+    if order:
+        fields = [fields[k] for k in order]
+    d = ":".join(fields)
     return f"pair/(phrase/{esc(phrase_id)}/{esc(d)},{esc(mac)},{esc(base64.b64encode(bytes(b)).decode())})"
 
 
